@@ -1315,6 +1315,12 @@ class Replace(Elemwise):
     _keyword_only = ["value", "regex"]
     operation = M.replace
 
+    def _simplify_up(self, parent, dependents):
+        if isinstance(parent, Projection):
+            return _column_keyed_projection(
+                self, self.operand("to_replace"), parent, dependents
+            )
+
 
 class Isin(Elemwise):
     _projection_passthrough = True
@@ -1500,6 +1506,12 @@ class Round(Elemwise):
     _projection_passthrough = True
     _parameters = ["frame", "decimals"]
     operation = M.round
+
+    def _simplify_up(self, parent, dependents):
+        if isinstance(parent, Projection):
+            return _column_keyed_projection(
+                self, self.operand("decimals"), parent, dependents
+            )
 
 
 class Where(Elemwise):
